@@ -337,27 +337,30 @@ theorem next_ok (cx : Ctx) (m : Bool) (q : Bytes) (e : ErrSt) : TokOK cx q e (ne
   nextF_ok cx m _ q e
 
 /-- more fuel than the remaining length changes nothing -/
-theorem nextF_fuel (cx : Ctx) (m : Bool) : ∀ (f : Nat) (q : Bytes) (e : ErrSt), q.length < f →
-    nextF cx m f q e = nextF cx m (q.length + 1) q e := by
-  intro f
-  induction f with
-  | zero => intro q e h; omega
-  | succ f ih =>
-    intro q e h
+theorem nextF_fuel2 (cx : Ctx) (m : Bool) : ∀ (f1 f2 : Nat) (q : Bytes) (e : ErrSt), q.length < f1 → q.length < f2 →
+    nextF cx m f1 q e = nextF cx m f2 q e := by
+  intro f1
+  induction f1 with
+  | zero => intro f2 q e h; omega
+  | succ f1 ih =>
+    intro f2 q e h1 h2
+    match f2, h2 with
+    | f2 + 1, h2 =>
     match q with
     | [] => simp [nextF]
     | c :: r =>
-      simp only [nextF, List.length_cons]
+      simp only [nextF]
       split
       · rfl
       · split
-        · rename_i hsp
-          have hle := isSpaceLen_le cx (c :: r)
+        · have hle := isSpaceLen_le cx (c :: r)
           have hlen : ((c :: r).drop (isSpaceLen cx (c :: r))).length < (c :: r).length := by
             rw [List.length_drop]; simp at hle ⊢; omega
-          rw [ih _ e (by simp at h hlen ⊢; omega)]
-          have := ih ((c :: r).drop (isSpaceLen cx (c :: r))) e (f := r.length + 1)
-          sorry
+          exact ih f2 _ e (by simp at h1 hlen ⊢; omega) (by simp at h2 hlen ⊢; omega)
         · rfl
+
+theorem nextF_fuel (cx : Ctx) (m : Bool) (f : Nat) (q : Bytes) (e : ErrSt) (h : q.length < f) :
+    nextF cx m f q e = next cx m q e :=
+  nextF_fuel2 cx m f (q.length + 1) q e h (Nat.lt_succ_self _)
 
 end C07
